@@ -386,6 +386,15 @@ def run_case(case, ctx):
     order = list(range(len(drops)))
     if len(drops) == 2 and pd(em[0].position, drops[0][0]) + pd(em[1].position, drops[1][0]) > pd(em[0].position, drops[1][0]) + pd(em[1].position, drops[0][0]):
         order = [1, 0]
+    # the documented options that do not touch the geometry (an interface width attached to the results - tiny, or larger than the
+    # droplets -, a minimal radius below every droplet) leave count, volume and centre as they are
+    Rmin = min(R for _, R in drops)
+    for opt in ({"interface_width": 1e-3 * Rmin}, {"interface_width": 2.5 * max(R for _, R in drops)}, {"minimal_radius": 0.25 * Rmin}):
+        em_o = locate_droplets(field, **opt)
+        ctx.op()
+        same = len(em_o) == len(em) and all(bool(np.array_equal(a.position, b.position)) and abs(a.volume - b.volume) <= 1e-12 * b.volume for a, b in zip(em_o, em))
+        ctx.check("C01.options-neutral", same, {"option": {k: float(v) for k, v in opt.items()}, "with_option": [[list(map(float, d.position)), float(d.volume)] for d in em_o],
+                                                "plain": [[list(map(float, d.position)), float(d.volume)] for d in em]}, tags)
     for k_, d in enumerate(em):
         c, R = drops[order[k_]]
         cov = covered[order[k_]]
@@ -414,4 +423,4 @@ def run_case(case, ctx):
 def expected_positive(tier):
     return ["C01.count", "C01.volume", "C01.centre", "C01.inbox", "C01.integral", "straddling-periodic-boundary", "straddling-periodic-corner",
             "centre-outside-box", "anisotropic", "two-droplets", "covers>=3cells",
-            "grid-sequences", "pairs-separated-by-the-other-axis-length", "annular-grid", "droplet-reaching-the-outer-wall", "other-length-units", "diagonal-pairs-with-overlapping-bounding-boxes"]
+            "grid-sequences", "pairs-separated-by-the-other-axis-length", "annular-grid", "droplet-reaching-the-outer-wall", "other-length-units", "diagonal-pairs-with-overlapping-bounding-boxes", "C01.options-neutral"]
